@@ -164,6 +164,17 @@ def run(repo, res):
     res.check('C09-R2', 'check_changes clears the per-request cache before yielding', ok, PROJECT, cc.lineno,
               'check_changes must clear _context_cache before it yields')
 
+    # the module tables belong to Project: their validity is decided in get_module / check_changes only
+    from ..core import private_state_accesses
+    priv, outside = private_state_accesses(repo, facts, 'Project')
+    for attr, rel, line, qual in outside:
+        if 'norm' not in attr:
+            res.check('C09-R2', '%s touched in %s' % (attr, qual), False, rel, line,
+                      'a module table of Project is read or written outside Project (in %s): entries that bypass get_module are never '
+                      're-validated against the file, entries removed or added elsewhere change what a request sees' % qual)
+    res.ob('C09-R2', 'module tables owned by Project', not any('norm' not in a for a, _r, _l, _q in outside),
+           sample='%s accessed only inside Project' % ', '.join(p for p in priv if 'norm' not in p))
+
     # ---- R3 the per-request cache cannot resurrect a stale entry ----------------------------------------------
     stores = [n for n in ast.walk(gm) if isinstance(n, ast.Assign) and unparse(n.targets[0]).startswith('self._context_cache[')]
     for st in stores:
